@@ -65,6 +65,10 @@ IDIOMS = [
     {"id": "internal_same_name", "spec": [],
      "procs": [("int_a", "subroutine oa_{n}()\n  integer :: {n}\n  call helper()\ncontains\n  subroutine helper()\n    {n} = 1\n  end subroutine helper\nend subroutine oa_{n}"),
                ("int_b", "subroutine ob_{n}()\n  real :: {n}\n  call helper()\ncontains\n  subroutine helper()\n    {n} = 2.0\n  end subroutine helper\nend subroutine ob_{n}")]},
+    # the F77 idiom 'real f' / 'external f' for a dummy procedure, in two procedures and in another letter case
+    {"id": "external_idiom", "spec": [],
+     "procs": [("ext_a", "subroutine ea_{n}(fx_{n}, r)\n  real fx_{n}\n  external fx_{n}\n  real, intent(out) :: r\n  r = fx_{n}(1.0)\nend subroutine ea_{n}"),
+               ("ext_b", "subroutine eb_{n}(fx_{n}, r)\n  real :: fx_{n}\n  external FX_{n}\n  real, intent(out) :: r\n  r = fx_{n}(2.0)\nend subroutine eb_{n}")]},
     # named constructs re-using one construct name in two procedures and a SELECT TYPE with associate-name
     {"id": "constructs", "spec": [("con_t", "type :: s_{n}\n  integer :: i\nend type s_{n}", [])],
      "procs": [("con_a", "subroutine ca_{n}(x)\n  class(*), intent(in) :: x\n  integer :: j\n  lp: do j = 1, 2\n    select type (y => x)\n    type is (s_{n})\n      if (y%i > j) exit lp\n    class default\n      cycle lp\n    end select\n  end do lp\nend subroutine ca_{n}"),
@@ -108,9 +112,19 @@ def idiom_module_st(draw, index=0):
         lines.append("  private")
     for _, text, _ in spec:
         lines += ["  " + l for l in text.split("\n")]
+    joined = False
     if procs:
-        lines.append("contains")
+        # 'contains; subroutine s()' on one line is as valid as two lines
+        joined = draw(st.integers(0, 3)) == 0
+        first = True
+        if not joined:
+            lines.append("contains")
         for _, text, _ in procs:
-            lines += ["  " + l for l in text.split("\n")]
+            tl = text.split("\n")
+            if joined and first:
+                lines.append("contains; " + tl[0])
+                tl = tl[1:]
+            first = False
+            lines += ["  " + l for l in tl]
     lines.append(f"end module m_idi{index}")
-    return {"text": "\n".join(lines) + "\n", "idioms": ids, "order": [b[0] for b in spec] + [b[0] for b in procs]}
+    return {"text": "\n".join(lines) + "\n", "idioms": ids, "order": [b[0] for b in spec] + [b[0] for b in procs] + (["contains-joined"] if joined else [])}
